@@ -10,7 +10,7 @@ include!(concat!(env!("OUT_DIR"), "/zobrist_table.rs"));
 /// Zobrist hashing: https://www.chessprogramming.org/Zobrist_Hashing
 #[derive(Clone)]
 pub struct PositionInfo {
-    position_count: FxHashMap<u64, u8>,
+    position_count: FxHashMap<(u64, u8), u8>,
     max_seen_position_count_stack: Vec<u8>,
     current_position_hash: u64,
 }
@@ -30,28 +30,24 @@ impl PositionInfo {
         Default::default()
     }
 
-    pub fn count_current_position(&mut self) -> u8 {
+    pub fn count_current_position(&mut self, turn: Color) -> u8 {
+        let key = (self.current_position_hash, turn as u8);
         self.position_count
-            .entry(self.current_position_hash)
+            .entry(key)
             .and_modify(|count| *count += 1)
             .or_insert(1);
-        let count = *self
-            .position_count
-            .get(&self.current_position_hash)
-            .unwrap();
+        let count = *self.position_count.get(&key).unwrap();
         self.max_seen_position_count_stack.push(count);
         count
     }
 
-    pub fn uncount_current_position(&mut self) -> u8 {
+    pub fn uncount_current_position(&mut self, turn: Color) -> u8 {
+        let key = (self.current_position_hash, turn as u8);
         self.position_count
-            .entry(self.current_position_hash)
+            .entry(key)
             .and_modify(|count| *count -= 1);
         self.max_seen_position_count_stack.pop();
-        *self
-            .position_count
-            .get(&self.current_position_hash)
-            .unwrap()
+        *self.position_count.get(&key).unwrap()
     }
 
     pub fn max_seen_position_count(&self) -> u8 {
